@@ -303,6 +303,11 @@ def r01_5(ctx):
                 merge_off = any(isinstance(f, tuple) and field_path(strip_transparent(f[1])) == "self.options.merge_props" for f in facts)
                 merge_on = any((not isinstance(f, tuple)) and field_path(strip_transparent(f)) == "self.options.merge_props" for f in facts)
                 ok = deduped or merge_off
+                if deduped and not merge_on:
+                    # with mergeProps off the object keeps plain last-wins semantics: nothing may be merged then
+                    on_path = any((not isinstance(f, tuple)) and any(field_path(strip_transparent(c_)) == "self.options.merge_props" for c_ in conjuncts(f)) for f in facts)
+                    r.ob("object literal of pending attributes #%d is de-duplicated only when mergeProps is on" % nlit, on_path, C.mloc(fold, leaf),
+                         "under merge_props" if on_path else "dedupe_props(..) also runs with mergeProps off: repeated keys are merged (class / style / listeners) or dropped instead of last-wins")
                 key = "object literal of pending attributes #%d is de-duplicated when mergeProps is on" % nlit
                 r.ob(key, ok, C.mloc(fold, leaf), "dedupe_props(..)" + (" under merge_props" if merge_on else "") if deduped else
                      ("only reached with mergeProps off" if merge_off else "the pending attributes go into the object literal as they are: a repeated class / style / listener key is emitted twice and the later one wins"))
@@ -362,7 +367,8 @@ def r01_4(ctx):
 
 def rules(ctx):
     from ..engine import only
-    return [r01_1, r01_2, r01_3, r01_4, r01_5, c14.r14_6,
+    from . import c02
+    return [r01_1, r01_2, r01_3, r01_4, r01_5, c14.r14_6, c02.r02_1, c02.r02_5,
             only(c07.r07_6, lambda k: "transform_attrs" in k or k.startswith("JSX attribute literal"), "string attribute values"),
             c11.r11_4]
 
